@@ -542,6 +542,23 @@ fn frexp_ops(op: &str, args: &[Arg]) -> Option<String> {
 pub fn dispatch(op: &str, ty: &str, args: &[Arg]) -> Option<String> {
     let r: Option<String> = match op {
         "frexp" | "ldexp" | "frexp_ldexp" => frexp_ops(op, args),
+        // trim_zeros on float pools: the answer must be a slice input[i..j] of the input (compared bit by bit); the
+        // harness answers with i and j (seeded change C13n: a NaN at either end was trimmed like a zero)
+        "trimz" => {
+            fn tz<N: Elem>(pool: bool, args: &[Arg]) -> Option<String> {
+                let (s1, e1) = match args { [Arg::A(s1, e1)] => (s1, e1), _ => return None };
+                let a = mkn::<N>(pool, s1, e1)?;
+                let src: Vec<String> = a.get_elements().ok()?.iter().map(|x| x.to_lab()).collect();
+                Some(match a.trim_zeros() {
+                    Err(e) => err_str(&e),
+                    Ok(r) => { if let Some(v) = wf_violation(&r) { return Some(v) }
+                        let got: Vec<String> = r.get_elements().ok()?.iter().map(|x| x.to_lab()).collect();
+                        let mut ans = "!notaslice".to_string();
+                        'outer: for i in 0..=src.len() { for j in i..=src.len() { if src[i..j] == got[..] && (i < j || got.is_empty()) { ans = format!("list(z({i});z({j}))"); break 'outer } } }
+                        if got.is_empty() { "list(empty)".to_string() } else { ans } } })
+            }
+            num_type!(ty, N, pool, tz::<N>(pool, args))
+        }
         "ew2" | "ew1" => {
             let (name, rest) = match args.first() { Some(Arg::S(n)) => (String::from_utf8(n.clone()).ok()?, &args[1..]), _ => return Some("bad".into()) };
             if op == "ew2" { num_type!(ty, N, pool, ew2::<N>(pool, &name, rest)) } else { num_type!(ty, N, pool, ew1::<N>(pool, &name, rest)) }
